@@ -12,6 +12,7 @@ import (
 	protocol "github.com/longportapp/openapi-protocol/go"
 	_ "github.com/longportapp/openapi-protocol/go/v1"
 	_ "github.com/longportapp/openapi-protocol/go/v2"
+	"github.com/longportapp/openapi-protocol/go/verifhook"
 	"github.com/pkg/errors"
 )
 
@@ -127,6 +128,7 @@ func (conn *tcpConn) write(data []byte) error {
 	if conn.closed() {
 		return errConnClosed
 	}
+	verifhook.Point("conn.write.before-enqueue")
 
 	select {
 	case conn.writeCh <- data:
@@ -146,6 +148,7 @@ func (conn *tcpConn) OnPacket(fn func(*protocol.Packet, error)) {
 			defer close(conn.packetCh)
 
 			for {
+				verifhook.Point("disp.loop")
 				if conn.closed() {
 					// consume all packet
 					if l := len(conn.packetCh); l > 0 {
@@ -205,6 +208,7 @@ func (conn *tcpConn) reading() {
 		}
 
 		n, err := conn.conn.Read(conn.buf)
+		verifhook.Point("tcp.read", n)
 
 		if err != nil {
 			conn.Close(err)
@@ -252,6 +256,7 @@ func (conn *tcpConn) readPacket(buf *ringbuffer.RingBuffer) error {
 			break
 		}
 
+		verifhook.Point("tcp.before-add")
 		conn.addPacket(packet)
 	}
 
